@@ -81,7 +81,7 @@ def _to_fraction(x):
     if isinstance(x, float):
         if math.isfinite(x):
             return Fraction(x)
-        raise ValueError("non-finite float")
+        raise CutPath("ieee_special", "non-finite float meets symbolic arithmetic")
     if isinstance(x, numbers.Integral):
         return Fraction(int(x))
     if isinstance(x, numbers.Real):
@@ -89,7 +89,7 @@ def _to_fraction(x):
         if math.isfinite(xf):
             # numpy float32/float16/longdouble: exact through python float for <=64 bit
             return Fraction(xf)
-        raise ValueError("non-finite float")
+        raise CutPath("ieee_special", "non-finite float meets symbolic arithmetic")
     raise TypeError(type(x))
 
 
@@ -519,19 +519,20 @@ def _cmp_to_z3(op, poly):
 
 def poly_to_z3(poly):
     c = ctx()
+    cache = c.mono_z3
     terms = []
     for m, k in poly.items():
         if not m:
             terms.append(_rat(k))
             continue
-        factors = []
-        for sid, e in m:
-            v = c.syms[sid].z3v
-            for _ in range(e):
-                factors.append(v)
-        prod = factors[0]
-        for f in factors[1:]:
-            prod = prod * f
+        prod = cache.get(m)
+        if prod is None:
+            factors = []
+            for sid, e in m:
+                v = c.syms[sid].z3v
+                factors.extend([v] * e)
+            prod = factors[0] if len(factors) == 1 else z3.Product(factors)
+            cache[m] = prod
         if k != 1:
             prod = _rat(k) * prod
         terms.append(prod)
@@ -562,6 +563,38 @@ def _lift(x):
     if isinstance(x, numbers.Real):
         return p_const(x)
     return None
+
+
+def _isnf(o):
+    return isinstance(o, float) and not math.isfinite(o)
+
+
+def _sign_fork(x):
+    """python sign of a SymReal on this path (forks)"""
+    if bool(x > 0):
+        return 1
+    if bool(x < 0):
+        return -1
+    return 0
+
+
+def _nf(op, x, o, swapped):
+    """IEEE semantics of `x op o` (or `o op x` when swapped) for symbolic finite x and non-finite float o"""
+    if math.isnan(o):
+        return float("nan")
+    if op == "add":
+        return o
+    if op == "sub":
+        return o if swapped else -o
+    if op == "mul":
+        s = _sign_fork(x)
+        return float("nan") if s == 0 else (o if s > 0 else -o)
+    if op == "div":
+        if swapped:     # inf / x
+            s = _sign_fork(x)
+            return o if s >= 0 else -o      # inf/0 = inf (sign of zero ignored)
+        return 0.0      # x / inf
+    raise AssertionError(op)
 
 
 class SymReal:
@@ -600,6 +633,8 @@ class SymReal:
 
     # -- arithmetic
     def __add__(self, o):
+        if _isnf(o):
+            return _nf("add", self, o, False)
         q = _lift(o)
         if q is None:
             return NotImplemented
@@ -608,18 +643,24 @@ class SymReal:
     __radd__ = __add__
 
     def __sub__(self, o):
+        if _isnf(o):
+            return _nf("sub", self, o, False)
         q = _lift(o)
         if q is None:
             return NotImplemented
         return SymReal(p_sub(self.p, q))
 
     def __rsub__(self, o):
+        if _isnf(o):
+            return _nf("sub", self, o, True)
         q = _lift(o)
         if q is None:
             return NotImplemented
         return SymReal(p_sub(q, self.p))
 
     def __mul__(self, o):
+        if _isnf(o):
+            return _nf("mul", self, o, False)
         q = _lift(o)
         if q is None:
             return NotImplemented
@@ -634,12 +675,16 @@ class SymReal:
         return self
 
     def __truediv__(self, o):
+        if _isnf(o):
+            return _nf("div", self, o, False)
         q = _lift(o)
         if q is None:
             return NotImplemented
         return divide(self.p, q)
 
     def __rtruediv__(self, o):
+        if _isnf(o):
+            return _nf("div", self, o, True)
         q = _lift(o)
         if q is None:
             return NotImplemented
@@ -705,6 +750,9 @@ class SymReal:
 
     def reciprocal(self):
         return divide(p_const(1), self.p)
+
+    def isfinite(self):
+        return True
 
     def square(self):
         return self * self
@@ -840,6 +888,9 @@ def fmt_poly(p, maxterms=12):
 def as_symreal(x):
     if isinstance(x, SymReal):
         return x
+    if hasattr(x, "ndim") and hasattr(x, "reshape") and not isinstance(x, numbers.Number):
+        if x.ndim == 0 or getattr(x, "size", 0) == 1:
+            return as_symreal(x.reshape(-1)[0])
     q = _lift(x)
     if q is None:
         raise TypeError("not numeric: %r" % (type(x),))
@@ -854,21 +905,33 @@ def is_symbolic(x):
 # atoms
 
 
+def _ieee_div_by_zero(a):
+    """x / 0 with IEEE semantics: +-inf or nan as python floats (they stay concrete; mixing them with symbolic
+    values later is cut as ieee_special)"""
+    if p_is_const(a):
+        v = p_const_value(a)
+        return float("inf") if v > 0 else (float("-inf") if v < 0 else float("nan"))
+    x = SymReal(a)
+    if bool(x > 0):
+        return float("inf")
+    if bool(x < 0):
+        return float("-inf")
+    return float("nan")
+
+
 def divide(a, b):
     """a / b for polys"""
     if p_is_const(b):
         cb = p_const_value(b)
         if cb == 0:
-            raise CutPath("ieee_special", "division by constant zero")
+            return _ieee_div_by_zero(a)
         return SymReal(p_scale(a, 1 / cb))
+    c = ctx()
+    if not c.nonzero(b):
+        return _ieee_div_by_zero(a)
     if not a:
-        # 0 / b : need b != 0 for the value to be 0 (else nan)
-        c = ctx()
-        c.require_nonzero(b)
         return SymReal({})
     q = p_divide_exact(a, b)
-    c = ctx()
-    c.require_nonzero(b)
     if q is not None:
         return SymReal(q)
     return c.quotient(a, b)
@@ -1010,8 +1073,9 @@ class PathCtx:
 
     strict_inputs = False
 
-    def __init__(self, explorer, prefix):
+    def __init__(self, explorer, prefix, prefix_model=None):
         self.ex = explorer
+        self.prefix_model = prefix_model
         self.prefix = prefix          # list of decisions; last may be ('force', v) / ('intother', excl)
         self.pos = 0
         self.decisions = []           # decisions actually taken (concrete values)
@@ -1034,6 +1098,7 @@ class PathCtx:
         self.n_queries = 0
         self.pc_terms = []            # SymBools of the path condition (for reporting)
         self.ackermann = True
+        self.mono_z3 = {}
         self.decided = {}             # cond key -> value already taken on this path
         if prefix:
             self.model_ok = False     # no valid model until the forced decision at the end of the prefix is checked
@@ -1212,6 +1277,12 @@ class PathCtx:
             d = self.prefix[i]
             last = (i == len(self.prefix) - 1)
             if isinstance(d, tuple) and d[0] == "force":
+                if self.prefix_model is not None:
+                    r = self._take(cond, d[1], forced_check=False)
+                    self.model_inputs = dict(self.prefix_model)
+                    self.model_ok = True
+                    self.evaluator = None
+                    return r
                 return self._take(cond, d[1], forced_check=True)
             if not isinstance(d, bool):
                 raise RuntimeError("non-deterministic replay: expected branch, got %r" % (d,))
@@ -1225,9 +1296,9 @@ class PathCtx:
             self.solver.add(cond.z3())
             r = self._check()
             if r == z3.sat:
-                self._model_from_solver_scoped()
+                self._model_from_solver()
                 self.solver.pop()
-                self.ex.push_alt(self.decisions + [("force", False)])
+                self._push_other(cond, False)
                 return self._take(cond, True)
             self.solver.pop()
             if r == z3.unsat:
@@ -1235,28 +1306,51 @@ class PathCtx:
                 return self._take(cond, False, forced_check=not self.model_ok)
             # unknown: treat both as feasible
             self.ex.stats["unknown_feasibility"] += 1
-            self.ex.push_alt(self.decisions + [("force", False)])
+            self.ex.push_alt(self.decisions + [("force", False)], None)
             self.model_ok = False
             return self._take(cond, True)
-        self.ex.push_alt(self.decisions + [("force", (not v))])
+        self._push_other(cond, not v)
         return self._take(cond, v)
+
+    def _push_other(self, cond, value):
+        """eagerly decide whether the other side of a new decision is feasible; push it with its model if so"""
+        other = cond if value else ~cond
+        self.solver.push()
+        try:
+            self.solver.add(other.z3())
+            r = self._check()
+            if r == z3.unsat:
+                return
+            model = None
+            if r == z3.sat:
+                model = self._extract_inputs(self._last_model)
+            else:
+                self.ex.stats["unknown_feasibility"] += 1
+            self.ex.push_alt(self.decisions + [("force", value)], model)
+        finally:
+            self.solver.pop()
+
+    def _extract_inputs(self, m):
+        vals = {}
+        for s in self.syms:
+            if s.defn is not None:
+                continue
+            v = m.eval(s.z3v, model_completion=True)
+            if z3.is_rational_value(v):
+                vals[s.sid] = Fraction(v.numerator_as_long(), v.denominator_as_long())
+            else:
+                return None
+        return vals
 
     def _model_from_solver_scoped(self):
         self._model_from_solver()
 
-    def require_nonzero(self, bpoly):
-        """fork on b == 0 ; the b == 0 side is an IEEE-special path and is cut"""
-        key = ("nz", p_key(bpoly))
-        if key in self.memo:
-            return
+    def nonzero(self, bpoly):
+        """fork on b != 0 (decided once per path); returns the truth value taken"""
         cond = SymBool.cmp("ne", bpoly)
         if cond.is_const:
-            if not cond.value:
-                raise CutPath("ieee_special", "division by zero")
-            return
-        if not bool(cond):
-            raise CutPath("ieee_special", "division by zero: %s == 0" % fmt_poly(bpoly))
-        self.memo[key] = True
+            return cond.value
+        return bool(cond)
 
     def choose_int(self, x):
         """int(x) for symbolic x: enumerate feasible truncations as decisions"""
@@ -1308,7 +1402,7 @@ class PathCtx:
         k = math.trunc(v)
         if len(excl) + 1 > self.ex.max_int_choices:
             raise CutPath("int_enum_limit", "more than %d values of int()" % self.ex.max_int_choices)
-        self.ex.push_alt(self.decisions + [("intother", tuple(excl + [k]))])
+        self.ex.push_alt(self.decisions + [("intother", tuple(excl + [k]))], None)
         b = bucket(k)
         self.pc_terms.append(b)
         self._add(b.z3())
